@@ -1,11 +1,11 @@
 ------------------------------- MODULE MC_C14 -------------------------------
 EXTENDS JasmSession, JasmPattern, TLC
 \* the rule documents of the C14 universe differ in exactly the state-bearing features
-RuleIds == {"plain", "mfm", "ofm", "range", "range2", "sections", "sections2", "style", "caps", "macros", "xmacros", "xlib_a", "xlib_b"}
+RuleIds == {"plain", "mfm", "ofm", "range", "range2", "sections", "sections2", "style", "caps", "macros", "xmacros", "xlib_a", "xlib_b", "bigrange"}
 CfgTable == [r \in RuleIds |->
     CASE r = "mfm"      -> RuleCfg("T", "-", "-", <<>>, <<>>)
       [] r = "ofm"      -> RuleCfg("F", "T", "-", <<>>, <<>>)
-      [] r = "range"    -> RuleCfg("-", "-", "-", <<"0x401000", "0x401010">>, <<>>)
+      [] r \in {"range", "bigrange"} -> RuleCfg("-", "-", "-", <<"0x401000", "0x401010">>, <<>>)
       [] r = "range2"   -> RuleCfg("-", "-", "-", <<"0x402000", "0x402fff">>, <<>>)    \* the other call target of the listing
       [] r = "sections2" -> RuleCfg("-", "-", "-", <<>>, <<".text">>)
       [] r = "sections" -> RuleCfg("-", "-", "-", <<>>, <<".foo">>)
@@ -24,6 +24,8 @@ PatternOf(r) ==
       [] r = "style"    -> PAnd(<<I("ret")>>)
       [] r = "caps"     -> PAnd(<<PIns("push", <<OCap("x")>>), PIns("pop", <<OCap("x")>>)>>)
       [] r = "macros"   -> PAnd(<<I("@m")>>)
+      \* an expensive rule (120 orderings, a regex of more than 16 000 characters) whose result depends on its range
+      [] r = "bigrange" -> PAnd(<<PPerm(<<I("push"), PIns("call", <<OLit("valid_addr")>>), I("pop"), I("ret"), I("call")>>)>>)
       [] OTHER          -> PAnd(<<I("@m")>>)                         \* xmacros: @m comes from an extra macro file
 \* string macros: <<name, body>>
 \* xlib_a / xlib_b: the same extra macro file (a library macro @lib whose body uses @inner), while each rule
@@ -35,7 +37,7 @@ Listing == << Ins("401000", "push", <<"%rbx">>), Ins("401001", "call", <<"401008
 \* which inputs an operation on rule r is run on ("text": the listing above; "bin": an object file
 \* with an executable .text and an executable .foo section, built by the harness)
 InputsOf(r) == IF r \in {"sections", "sections2", "plain", "style"} THEN {"text", "bin"} ELSE {"text"}
-RuleSeq == <<"plain", "mfm", "ofm", "range", "range2", "sections", "sections2", "style", "caps", "macros", "xmacros", "xlib_a", "xlib_b">>
+RuleSeq == <<"plain", "mfm", "ofm", "range", "range2", "sections", "sections2", "style", "caps", "macros", "xmacros", "xlib_a", "xlib_b", "bigrange">>
 Export == [rules |-> [n \in DOMAIN RuleSeq |->
                         [id |-> RuleSeq[n], cfg |-> CfgTable[RuleSeq[n]], pattern |-> PatternOf(RuleSeq[n]),
                          macros |-> MacrosOf(RuleSeq[n]), xmacros |-> XMacrosOf(RuleSeq[n]),
